@@ -696,7 +696,10 @@ char *qstr_comma_number(int number) {
         return NULL;
 
     char buf[10 + 1], *bufp;
-    snprintf(buf, sizeof(buf), "%d", abs(number));
+    // abs(INT_MIN) is undefined, negate in unsigned arithmetic instead.
+    unsigned int absnum =
+            (number < 0) ? 0U - (unsigned int) number : (unsigned int) number;
+    snprintf(buf, sizeof(buf), "%u", absnum);
 
     if (number < 0)
         *strp++ = '-';
